@@ -352,6 +352,14 @@ impl Plane {
   // TODO check if the plane is rectangular.
   pub fn finalize(&mut self) -> Result<()> {
     self.content.remove(self.content.len() - 1);
+    // every row must have the same, non-zero number of cells, otherwise the text is not a regular grid
+    let width = self.width();
+    if self.content.iter().any(|row| row.is_empty()) {
+      return Err(plane_is_empty());
+    }
+    if self.content.iter().any(|row| row.len() != width) {
+      return Err(plane_is_not_rectangular());
+    }
     Ok(())
   }
   /// Returns rectangle containing input clauses in horizontal table.
@@ -478,7 +486,7 @@ impl Plane {
   /// Checks if rule numbers are placed on the left side below horizontal output double line.
   fn recognize_horizontal_rule_numbers(&self) -> Result<RuleNumbersPlacement> {
     let mut row = 0;
-    while !self.is_horizontal_output_double_line(row, 0) {
+    while row < self.content.len() && !self.is_horizontal_output_double_line(row, 0) {
       row += 1;
     }
     row += 1;
@@ -510,7 +518,7 @@ impl Plane {
   fn recognize_vertical_rule_numbers(&self) -> Result<RuleNumbersPlacement> {
     let mut col = 0;
     let row = self.content.len() - 1;
-    while !self.is_vertical_output_double_line(row, col) {
+    while col < self.content[row].len() && !self.is_vertical_output_double_line(row, col) {
       col += 1;
     }
     col += 1;
